@@ -3,7 +3,6 @@
 package main
 
 import (
-	"encoding/json"
 	"fmt"
 	"strings"
 
@@ -309,7 +308,7 @@ func c13Run(r *vkit.Run) {
 
 func c13Replay(r *vkit.Run, v vkit.Violation) *vkit.Violation {
 	var in c13Input
-	if err := json.Unmarshal(v.Input, &in); err != nil {
+	if err := vkit.DecodeInput(v, &in); err != nil {
 		r.HarnessError("bad input: %v", err)
 	}
 	return vkit.ReplayOne(r, func() { c13Check(r, in) })
